@@ -289,14 +289,18 @@ class _TableFormSection(object):
     return self._table_forms
   
 
+def _normalise_key(k):
+  """Remove whitespace from option keys allowing f(x, y) to be equivalent to f(x,y)"""
+  k = k.strip().replace(' ', '')
+  k = k.replace('\t', '')
+  return k
+
 class _ConfigParserDict(collections.OrderedDict):
   """Dictionary class used by `_RawConfigParser`,
   this removes whitespace from keys allowing f(x, y) to be equivalent to f(x,y)"""
 
   def _key_transform(self, k):
-    k = k.strip().replace(' ', '')
-    k = k.replace('\t', '')
-    return k
+    return _normalise_key(k)
 
   def __setitem__(self, key, value):
     key = self._key_transform(key)
@@ -318,8 +322,9 @@ class _RawConfigParser(configparser.RawConfigParser):
     self._sections = collections.OrderedDict()
 
   def optionxform(self, option):
-    option = option.strip()
-    return option
+    # Must agree with _ConfigParserDict: has_option(), set(), the strict
+    # duplicate check and interpolation all look keys up through this hook.
+    return _normalise_key(option)
 
 class ConfigParser(object):
   """Performs initial stage (tokenizing) of generating a potential model
